@@ -15,6 +15,16 @@ root = os.path.dirname(os.path.dirname(os.path.abspath(__file__)))
 tmpl = open("/tmp/seedout/PROMPT_TEMPLATE.txt").read() if os.path.exists("/tmp/seedout/PROMPT_TEMPLATE.txt") else open(os.path.join(root, "tools/SEED_PROMPT_TEMPLATE.txt")).read()
 
 EMPH = {
+    "6": ("This is the sixth round. Prefer changes of these kinds, which earlier rounds under-used: "
+          "(a) behaviour under NON-DEFAULT configuration values or option combinations (read the configuration/option structs the code consults: thread counts, "
+          "capacities 0/1, lifetimes, table algorithm parameters, MTU, feature flags on/off, local-fields/congestion/reliability options) where the default path stays correct; "
+          "(b) time boundaries: < vs <= on instants, exactly-equal deadlines, zero or very large durations, millisecond/nanosecond unit slips, a deadline computed from the wrong base time, "
+          "an expiry refreshed/not refreshed on one path; "
+          "(c) idempotence and repetition: the same operation issued twice, removing something absent, re-adding something present, a second identical packet, close twice, "
+          "an update that should be a no-op but is not (or should not be a no-op but is); "
+          "(d) interaction of TWO subsystems the property touches (cache + pending table, routing table + face table, fragmentation + header options, signer + encoder, store + fetcher) "
+          "where each is right alone; "
+          "(e) the LAST element / the ONLY element / the element equal to a bound in a loop or slice operation (off-by-one at the end, empty result vs nil, first-vs-last on ties). "),
     "5": ("This is the fifth round. Prefer changes of these kinds, which earlier rounds under-used: "
           "(a) a change in a HELPER the property's code relies on rather than in the obvious file (encoding/utility helpers, priority queue, "
           "name/hash helpers, option/config parsing, constants and defaults) whose effect only shows through the property's code path; "
